@@ -1,2 +1,5 @@
 import C2paModel.Model.C40
-def main : IO Unit := C2pa.runDriver C2pa.C40.handle
+import C2paModel.Gen.C40Sites
+def main : IO Unit := C2pa.runDriver (C2pa.C40.handleWith
+  { functions := C2pa.C40.Gen.functions, hand := C2pa.C40.Gen.handPairs,
+    cross := C2pa.C40.Gen.crossScope, orphans := C2pa.C40.Gen.asyncOrphans })
